@@ -1,4 +1,4 @@
-use crate::rt::alloc::Allocation;
+use crate::rt::alloc;
 use crate::rt::{lazy_static, object, thread, Path};
 
 use std::collections::HashMap;
@@ -21,7 +21,7 @@ pub(crate) struct Execution {
     pub(super) objects: object::Store,
 
     /// Maps raw allocations to LeakTrack objects
-    pub(super) raw_allocations: HashMap<usize, Allocation>,
+    pub(super) raw_allocations: HashMap<usize, object::Ref<alloc::State>>,
 
     pub(crate) arc_objs: HashMap<*const (), std::sync::Arc<super::Arc>>,
 
